@@ -212,8 +212,10 @@ def model_case(draw):
     earlier = None
     if draw(gen.chance(1, 3)):
         earlier = [draw(st.integers(0, 400)) / 10.0 for _ in range(T + 1 + draw(st.integers(0, 2)))]
+    bad = draw(st.sampled_from([None] * 8 + ['ic-not-a-number', 'ic-unknown-variable', 'exo-unknown-variable',
+                                             'exo-unevaluable']))
     return {'T': T, 'values': vals, 'form': form, 'ics': ics, 'via': draw(st.sampled_from(['model', 'sector'])),
-            'earlier': earlier, 'earlier_ics': draw(st.booleans())}
+            'earlier': earlier, 'earlier_ics': draw(st.booleans()), 'bad': bad}
 
 
 def run_model(spec):
@@ -248,6 +250,23 @@ def run_model(spec):
         else:
             mod.AddInitialCondition(sec, var, v)
     mod.MaxTime = T
+    if spec.get('bad') is not None:
+        labels = ['bad:' + spec['bad']]
+        try:
+            if spec['bad'] == 'ic-not-a-number':
+                mod.AddInitialCondition('HH', 'F', 'a lot')
+            elif spec['bad'] == 'ic-unknown-variable':
+                mod.AddInitialCondition('HH', 'NO_SUCH_VARIABLE', 1.0)
+            elif spec['bad'] == 'exo-unknown-variable':
+                mod.AddExogenous('HH', 'NO_SUCH_VARIABLE', '[1.0]*20')
+            else:
+                mod.AddExogenous('HH', 'AlphaFin', '[0.4]*20 + nothing')
+            mod.main()
+        except Exception as ex:
+            if any(len(s_) > 1 for s_ in mod.EquationSolver.TimeSeries.values()):
+                raise Violation('C10/model-invalid-produced-numbers', '%s: periods were solved before the error' % spec['bad'])
+            return {'nontrivial': True, 'labels': labels + ['error:' + type(ex).__name__]}
+        raise Violation('C10/model-invalid-accepted', 'invalid input (%s) was solved without an error' % spec['bad'])
     short = len(vals) < T + 1
     labels = ['form:' + form, 'short' if short else 'enough'] + (['path-overridden'] if spec.get('earlier') is not None else [])
     try:
